@@ -143,6 +143,7 @@ MUTANTS["C09"] = [
     ("exit-keeps-stale-context", "annet/annlib/tabparser.py", "            yield row, row_context\n            if row_context is not None:\n                last_row_context = row_context", "            yield row, row_context\n            if row_context:\n                last_row_context = row_context"),
     ("multiline-body-context-lost", "annet/annlib/patching.py", '                        "context": attrs["context"],\n                    })', '                        "context": attrs["context"] if not sub_pre else {},\n                    })'),
     ("deploy-rules-keyed-by-row-text", "annet/rulebook/deploying.py", "            deploying[rule_id] = {", "            deploying[attrs[\"row\"]] = {"),
+    ("dialog-matchers-equal-up-to-case-and-blanks", "annet/annlib/rbparser/deploying.py", "        return type(other) is type(self) and self._text == other._text  # pylint: disable=protected-access\n\n    def __hash__(self):\n        return hash(\"%s_%s\" % (self.__class__.__name__, self._text))", "        return type(other) is type(self) and _simplify_text(self._text) == _simplify_text(other._text)  # pylint: disable=protected-access\n\n    def __hash__(self):\n        return hash(\"%s_%s\" % (self.__class__.__name__, _simplify_text(self._text)))"),
 ]
 
 MUTANTS["C16"] = [
